@@ -33,6 +33,19 @@
     the left, result in a fresh array); `fmt.Sprintf` is the concatenation of the pieces the translator
     parses the constant format into (%s, %d); the regexp engine and `strconv.UnquoteChar` are NOT given a meaning: they
     are fields of the world `Ext` that the translated functions take as a parameter.
+  * THIRD BATCH (the error-rendering path; the section "error values" at the end of this file, translator side
+    harness/cmd/factgen/progerr.go): a value of an error interface (`error`, parsley.Error) is OBSERVED ONLY THROUGH ITS PURE
+    METHODS `Error()` and (for parsley.Error) `Pos()`: it is the record `Go.mkErr tag pos text` = `Obj.mk tag (pos :: text)
+    [] []` — the dynamic type's (or constructor's) name, a position slot, then the BYTES of `Error()` (bytes, not text: a
+    message may quote input that is not UTF-8); `e.Pos()` / `e.Error()` are the components `Go.errPos` / `Go.errText`
+    (ASSUMED pure: the same answer every time, no effect on the heap; on the nil interface they are a panic, as in Go).
+    `fmt.Errorf(format, args…)` is ASSUMED to satisfy  fmt.Errorf(format, args…).Error() = fmt.Sprintf(format, args…)  (its
+    documented meaning for a format without %w; the translator accepts a constant format of literal text, %s, %d, %%
+    only): `Go.errorf text` = `Go.mkErr "fmt.Errorf" 0 text` (the result has no `Pos`; the slot is 0).
+    `x == C` for an interface value x and a constant C of a named integer type (`pos == NilPosition`) is `Obj.isInt`: same
+    dynamic type (the tag) and same value — Go's comparison of interface values.  A method call on an interface value
+    that is neither of the above (`pos.String()`) is a generated match on the tag, one arm per implementing type of the
+    translated packages, each arm calling that type's TRANSLATED method; nil and any other dynamic type is `Res.panic`.
   Core Lean only.
 -/
 import ParsleyVerif.Model.Utf8
@@ -389,5 +402,31 @@ def Fmt.out : Fmt → Str
 
 /-- `fmt.Sprintf(format, args…)` for a constant format of literal text, %s, %d, %% -/
 def Go.sprintf (ps : List Fmt) : Str := ps.flatMap Fmt.out
+
+/-! ### error values (third batch: the error-rendering path; see the header) -/
+
+/-- `x == T(v)` for an interface value and a constant of the named integer type `T`: same dynamic type, same value -/
+def Obj.isInt : Obj → String → Int → Bool
+  | .mk tag [i] [] [], t, v => decide (tag = t) && decide (i = v)
+  | _, _, _ => false
+
+/-- the record of an error value: its dynamic type (or constructor), `Pos()` (0 for a plain `error`), the bytes of `Error()` -/
+def Go.mkErr (tag : String) (pos : Int) (text : Str) : Obj := .mk tag (pos :: text) [] []
+
+/-- `e.Pos()` of a parsley.Error (assumed pure); a panic on the nil interface -/
+def Go.errPos : Obj → M Int
+  | .nil => Go.panic
+  | .mk _ (p :: _) _ _ => pure p
+  | _ => pure 0
+
+/-- `e.Error()` of an error value (assumed pure), as bytes; a panic on the nil interface -/
+def Go.errText : Obj → M Str
+  | .nil => Go.panic
+  | .mk _ (_ :: t) _ _ => pure t
+  | _ => pure []
+
+/-- `fmt.Errorf(format, args…)` for a constant format of literal text, %s, %d, %%: ASSUMED
+    `fmt.Errorf(format, args…).Error() = fmt.Sprintf(format, args…)` -/
+def Go.errorf (text : Str) : Obj := Go.mkErr "fmt.Errorf" 0 text
 
 end PV.ProgPrelude
